@@ -30,7 +30,7 @@ from .norm import Normaliser, NormError
 VERIF = os.path.dirname(os.path.dirname(os.path.abspath(__file__)))
 REPO = os.environ.get("VERIF_REPO", "/repo")
 UNITS = os.path.join(VERIF, "units")
-BUILD = os.path.join(VERIF, "build")
+BUILD = os.environ.get("VERIF_BUILD") or os.path.join(VERIF, "build")
 
 GB, GE = "/*+*/", "/*-*/"
 
